@@ -21,24 +21,20 @@ RULE = ("malformed stream for each codec: random bytes (0-300), truncation at ev
         "non-trivial = buffer derived from a valid encoding with >= 2 blocks or channels (cseg), any "
         "non-empty buffer (raw), any buffer Pillow can open (jpeg)")
 
-F_STRUCT = "cseg-short-channel-struct-error"
-F_JPEG = "jpeg-load-oserror"
+# Regression inputs of the two defects repaired in /repo (a6dbfd3, 95d7b2e): a channel offset
+# before its predecessor (was struct.error) and a JPEG whose pixel load fails (was OSError).
+REGRESSION_CSEG = ("uint32", 2, [1, 1, 1], [1, 1, 1],
+                   "0200000000000000000000000000000000000000000000000000000000000000")
+REGRESSION_JPEG = (1, [2, 2, 2],
+                   "ffd8ffe000104a46494600010100000100010000ffdb0043000201010101010201010102020202020403020202020504"
+                   "040304060506060605060606070908060709070606080b08090a0a0a0a0a06080b0c0b0a0c090a0a0affc2000b080004"
+                   "000201011100ffc40014000100000000000000000000000000000009ffda00080101000000013fff00ffc40014100100"
+                   "000000000000000000000000000000ffda00080101000105027fffc40014100100000000000000000000000000000000"
+                   "ffda0008010100063f027fffc40014100100000000000000000000000000000000ffda0008010100013f217fffda0008"
+                   "0101000000107fffc400141001000000000000000000")
 
 
 # ------------------------------------------------------------------ cseg
-
-def cseg_region(buf, C, shape, blk):
-    """Region of the struct.error finding, stated independently of the model:
-    the file passes the global length test and some channel's offset is
-    followed by a next-channel offset closer than the block-header table."""
-    X, Y, Z = shape
-    bx, by, bz = blk
-    nblk = (-(-X // bx)) * (-(-Y // by)) * (-(-Z // bz))
-    if len(buf) < C * (4 + 8 * nblk):
-        return False
-    offs = [4 * struct.unpack_from("<I", buf, 4 * c)[0] for c in range(C)]
-    return any(offs[c + 1] < offs[c] + 8 * nblk for c in range(C - 1))
-
 
 def field_boundaries(buf, dt, C, shape, blk):
     X, Y, Z = shape
@@ -209,25 +205,30 @@ def run_cseg(R, quick):
             encoders[key] = c02.make_encoder(dt, C, blk)
         enc = encoders[key]
         impl = c02.impl_arr(outcome_of(lambda: enc.decode(b, shape)))
-        mrep, mguard = rep
-        mod = c02.model_arr(mrep, dt)
+        mod = c02.model_arr(rep, dt)
         case = {"codec": "cseg", "kind": kind, "dt": dt, "C": C, "shape": shape, "blk": blk, "buf": b}
         R.case(case, nontrivial=nontriv and kind != "random")
         R.count(f"cseg:{kind}:{impl[0] if impl[0] != 'Crash' else 'Crash-' + impl[1]}")
         if impl != mod:
             R.disagree("cseg decode vs cseg_decode", case, c02._short(impl), c02._short(mod))
-        region = cseg_region(b, C, shape, blk)
-        if (str(mguard) == "true") == region:
-            R.disagree("guard of the model vs region predicate of the harness", case, region, str(mguard))
         X, Y, Z = shape
         if impl[0] == "ok":
             if impl[1][0] != [C, Z, Y, X] or impl[1][1] != dt:
                 R.violation("decoder returned an array of the wrong shape or dtype", case, {"impl": impl[1][:2]})
-        elif impl != ["FormatErr"]:
-            if impl == ["Crash", "StructError"] and region:
-                R.known(F_STRUCT)
             else:
-                R.violation("decoder raised something other than InvalidFormatError", case, {"impl": impl})
+                # theorem C10_cseg_decode_sound: whatever is accepted decodes as the format document says
+                try:
+                    pv = c02.spec_decode_py(b, dt, C, shape, blk)
+                    isz = 4 if dt == "uint32" else 8
+                    ok = b"".join(v.to_bytes(isz, "little") for v in pv) == impl[1][2]
+                    det = {} if ok else {"spec": pv[:8]}
+                except ValueError as exc:
+                    ok, det = False, {"spec_error": str(exc)}
+                R.count("cseg:accepted_checked_against_format_decoder")
+                if not ok:
+                    R.violation("accepted bytes decoded to other labels than the format specifies", case, det)
+        elif impl != ["FormatErr"]:
+            R.violation("decoder raised something other than InvalidFormatError", case, {"impl": impl})
         if src is not None and impl != ["ok", c02.canon_arr(src)]:
             R.violation("valid compressed_segmentation data rejected or decoded wrongly", case,
                         {"impl": c02._short(impl)})
@@ -345,10 +346,8 @@ def pil_oracle(buf):
     w, h = img.size
     try:
         img.load()
-    except OSError:
+    except Exception:  # noqa: BLE001 - the glue code catches Exception around np.asarray(img)
         return [mode.encode(), w, h, c02_atom("loadfail")], ("loadfail", mode)
-    except Exception as exc:  # noqa: BLE001 - same region (pixel load fails), another exception class
-        return None, ("loadfail-other:" + type(exc).__name__, mode)
     arr = np.asarray(img)
     bands = 1 if arr.ndim == 2 else arr.shape[2]
     if arr.dtype != np.uint8:
@@ -435,7 +434,7 @@ def run_jpeg(R, quick):
             case = {"codec": "jpeg", "kind": kind, "C": C, "shape": shape, "buf": buf}
             R.case(case, nontrivial=info is not None)
             R.count(f"jpeg:{kind}:{impl[0]}")
-            if info is not None and (info[0] in ("odd-dtype", "too-large") or info[0].startswith("loadfail-other")):
+            if info is not None and info[0] in ("odd-dtype", "too-large"):
                 R.count(f"jpeg:model_not_consulted:{info[0]}")
             else:
                 mo = model_outcome(next(replies))
@@ -448,17 +447,8 @@ def run_jpeg(R, quick):
                     R.violation("jpeg decoder returned an array of the wrong shape or dtype", case,
                                 {"impl": impl[1][:2]})
             elif impl != ["FormatErr"]:
-                want_mode = {1: "L", 3: "RGB"}.get(C)
-                if impl == ["IOErr"] and info is not None and info[0] == "loadfail" and info[1] == want_mode:
-                    R.known(F_JPEG)
-                elif (impl[0] == "Crash" and info is not None and info[0] == "loadfail-other:" + impl[1]
-                      and info[1] == want_mode):
-                    # same region (Pillow opened the file, the pixel load raised), other exception class
-                    R.known(F_JPEG)
-                    R.count("jpeg:load_failed_with:" + impl[1])
-                else:
-                    R.violation("jpeg decoder raised something other than InvalidFormatError", case,
-                                {"impl": impl})
+                R.violation("jpeg decoder raised something other than InvalidFormatError", case,
+                            {"impl": impl})
             if a is not None:
                 if impl[0] != "ok":
                     R.violation("valid JPEG data rejected", case, {"impl": impl})
@@ -472,46 +462,37 @@ def run_jpeg(R, quick):
 
 # ------------------------------------------------------------------ entry points
 
-def run_witnesses(R):
-    """The recorded witness of every listed finding is replayed on every run."""
-    for f in R.findings:
-        w = f.get("witness", {})
-        if "buf_hex" not in w:
-            continue
-        buf = bytes.fromhex(w["buf_hex"])
-        shape = w["chunk_size"]
-        C = w["num_channels"]
-        with warnings.catch_warnings():
-            warnings.simplefilter("ignore")
-            if f["id"] == F_STRUCT:
-                dt, blk = w["data_type"], w["block_size"]
-                enc = c02.make_encoder(dt, C, blk)
-                impl = c02.impl_arr(outcome_of(lambda: enc.decode(buf, shape)))
-                mrep, mguard = R.model.call(*c02.dec_request(dt, C, blk, shape, buf))
-                case = {"codec": "cseg", "kind": "witness", "dt": dt, "C": C, "shape": shape, "blk": blk, "buf": buf}
-                R.case(case, nontrivial=True)
-                if impl != c02.model_arr(mrep, dt):
-                    R.disagree("cseg decode vs cseg_decode (finding witness)", case, impl, c02.model_arr(mrep, dt))
-                if impl == ["Crash", "StructError"] and cseg_region(buf, C, shape, blk) and str(mguard) == "false":
-                    R.known(F_STRUCT)
-                else:
-                    R.notes.append(f"witness of {F_STRUCT} no longer fails: {impl}")
-            elif f["id"] == F_JPEG:
-                enc = make_jpeg(C)
-                impl = c02.impl_arr(outcome_of(lambda: enc.decode(buf, shape)))
-                _pil, info = pil_oracle(buf)
-                case = {"codec": "jpeg", "kind": "witness", "C": C, "shape": shape, "buf": buf}
-                R.case(case, nontrivial=True)
-                if impl == ["IOErr"] and info is not None and info[0] == "loadfail":
-                    R.known(F_JPEG)
-                else:
-                    R.notes.append(f"witness of {F_JPEG} no longer fails: {impl}")
+def run_regressions(R):
+    """The inputs on which the decoders used to escape with struct.error / OSError."""
+    dt, C, shape, blk, hx = REGRESSION_CSEG
+    buf = bytes.fromhex(hx)
+    enc = c02.make_encoder(dt, C, blk)
+    impl = c02.impl_arr(outcome_of(lambda: enc.decode(buf, shape)))
+    mod = c02.model_arr(R.model.call(*c02.dec_request(dt, C, blk, shape, buf)), dt)
+    case = {"codec": "cseg", "kind": "regression", "dt": dt, "C": C, "shape": shape, "blk": blk, "buf": buf}
+    R.case(case, nontrivial=True)
+    R.count(f"cseg:regression:{impl[0]}")
+    if impl != mod:
+        R.disagree("cseg decode vs cseg_decode (regression input)", case, c02._short(impl), c02._short(mod))
+    if impl[0] != "ok" and impl != ["FormatErr"]:
+        R.violation("decoder raised something other than InvalidFormatError", case, {"impl": impl})
+    C, shape, hx = REGRESSION_JPEG
+    buf = bytes.fromhex(hx)
+    with warnings.catch_warnings():
+        warnings.simplefilter("ignore")
+        enc = make_jpeg(C)
+        impl = c02.impl_arr(outcome_of(lambda: enc.decode(buf, shape)))
+    case = {"codec": "jpeg", "kind": "regression", "C": C, "shape": shape, "buf": buf}
+    R.case(case, nontrivial=True)
+    R.count(f"jpeg:regression:{impl[0]}")
+    if impl[0] != "ok" and impl != ["FormatErr"]:
+        R.violation("jpeg decoder raised something other than InvalidFormatError", case, {"impl": impl})
 
 
 def run(R):
     R.rule = RULE
     quick = R.tier == "quick"
-    run_witnesses(R)
+    run_regressions(R)
     run_cseg(R, quick)
     run_raw(R, quick)
     run_jpeg(R, quick)
@@ -533,7 +514,7 @@ def _replay_correspondence(R, case, buf):
         if codec == "cseg":
             enc = c02.make_encoder(case["dt"], C, case["blk"])
             impl = c02.impl_arr(outcome_of(lambda: enc.decode(buf, shape)))
-            mrep, _g = R.model.call(*c02.dec_request(case["dt"], C, case["blk"], shape, buf))
+            mrep = R.model.call(*c02.dec_request(case["dt"], C, case["blk"], shape, buf))
             return impl != c02.model_arr(mrep, case["dt"])
         if codec == "raw":
             isz = RAW_TYPES[case["dt"]]
@@ -569,8 +550,6 @@ def replay(R, payload):
         if codec == "cseg":
             enc = c02.make_encoder(case["dt"], C, case["blk"])
             impl = c02.impl_arr(outcome_of(lambda: enc.decode(buf, shape)))
-            if impl == ["Crash", "StructError"] and cseg_region(buf, C, shape, case["blk"]):
-                return False        # known finding, not the recorded failure
             want_dt = case["dt"]
         elif codec == "raw":
             enc = make_raw(case["dt"], C)
@@ -582,10 +561,6 @@ def replay(R, payload):
             enc = make_jpeg(C)
             impl = c02.impl_arr(outcome_of(lambda: enc.decode(buf, shape)))
             want_dt = "uint8"
-            if impl == ["IOErr"]:
-                _pil, info = pil_oracle(buf)
-                if info is not None and info[0] == "loadfail":
-                    return False
     if impl[0] == "ok":
         return impl[1][0] != [C, Z, Y, X] or impl[1][1] != want_dt
     return impl != ["FormatErr"]
